@@ -118,6 +118,19 @@ use std::fmt::Display;
 pub use num_complex;
 pub use num_traits;
 
+// Verification hooks (off by default): see src/verif_hooks.rs
+#[cfg(feature = "verif_hooks")]
+pub mod verif_hooks;
+
+// With hooks enabled, CPU feature detection inside this crate is the real detection AND a simulator-owned mask.
+// This macro_rules definition textually shadows the std macro of the same name for every module below.
+#[cfg(all(feature = "verif_hooks", target_arch = "x86_64"))]
+macro_rules! is_x86_feature_detected {
+    ($name:tt) => {
+        $crate::verif_hooks::feature($name, ::std::arch::is_x86_feature_detected!($name))
+    };
+}
+
 #[macro_use]
 mod common;
 
